@@ -7,7 +7,7 @@ do not kill), run the quick checks that own the mutated file with VERIF_REPO poi
 worktree and record whether some check reports a violation.  Survivors are either equivalent
 mutants or gaps in the workloads -- the list is for a human to read.
 
-usage: tools_mutation_campaign.py <out.jsonl> [max_mutants] [seed]
+usage: [MUT_ONLY=<file substring>] tools_mutation_campaign.py <out.jsonl> [max_mutants] [seed]
 """
 import json
 import os
@@ -22,7 +22,7 @@ PY = '/venv/bin/python'
 
 CHECKS_FOR = {
     'expressions': ['C01', 'C03', 'C02', 'C04', 'C05', 'C06', 'C08', 'C17', 'C13'],
-    'translator.py': ['C01', 'C04', 'C08', 'C09', 'C10', 'C13', 'C14', 'C15', 'C16', 'C06', 'C07', 'C18', 'C11'],
+    'translator.py': ['C08', 'C10', 'C09', 'C14', 'C15', 'C16', 'C07', 'C01', 'C04', 'C13', 'C06', 'C18', 'C11', 'C17', 'C20'],
     'grammar.py': ['C11', 'C13', 'C18'],
 }
 
@@ -85,6 +85,9 @@ def main():
     maxm = int(sys.argv[2]) if len(sys.argv) > 2 else 60
     seed = int(sys.argv[3]) if len(sys.argv) > 3 else 0
     cands = candidates()
+    only = os.environ.get('MUT_ONLY')          # e.g. MUT_ONLY=translator.py restricts the files mutated
+    if only:
+        cands = [c for c in cands if only in c[0]]
     rng = random.Random(seed)
     rng.shuffle(cands)
     done = 0
